@@ -19,6 +19,8 @@ RULE = ("cases: random dataclass forests (depth <= 4, frozen / Optional / Union 
         "form. Non-trivial = at least one edit at depth >= 2 or >= 2 edits (replace), a selection that changes a member "
         "(subgroups), a dotted key (unit ops); distinct by canonical JSON of the case.")
 ASSUMPTIONS = [
+    "change-set / selection mappings are dicts or dict subclasses (OrderedDict, defaultdict) - a mapping is a mapping for the "
+    "model; non-dict Mappings are outside the signature",
     "init=False fields: the result is what dataclasses.replace builds (they are re-created from the class default on every "
     "rebuilt level); theorems c18_empty / c18_frame assume AtDefault / initPath accordingly, the oracle expects the reset",
     "dataclasses.replace / dataclass __init__ / __eq__ (stdlib) behave as documented; classes have no __post_init__",
@@ -49,6 +51,13 @@ NONE = {"t": "none"}
 
 def D(items):
     return {"t": "dict", "v": [[S(k), v] for k, v in items]}
+
+
+def as_subclass(rng, d):
+    """the same mapping, to be built as a dict SUBCLASS (collections.OrderedDict / defaultdict(dict)) by the adapter:
+    what json.load(object_pairs_hook=OrderedDict), yaml loaders or a defaultdict tree hand to replace()"""
+    k = rng.choice([None, None, "ordered", "default"])
+    return d if k is None else dict(d, sub=k)
 
 
 def ditems(d):
@@ -327,7 +336,7 @@ def render(rng, edits, mode="mixed"):
             for p, v in sub:
                 items.append((".".join([h] + p), v))
         else:
-            items.append((h, render(rng, sub, mode)))
+            items.append((h, as_subclass(rng, render(rng, sub, mode))))
     if mode == "mixed":
         rng.shuffle(items)
     return D(items)
@@ -371,7 +380,7 @@ def _gen_replace_case(rng, tier, bad=None, reserved=False, touch=False):
     if form == "kw" and any(k in RESERVED for k, _ in ditems(ch)):
         form = "dict"
     case = {"classes": classes, "obj": obj, "edits": edits, "stream": "edits",
-            "cd": ch if form == "dict" else None, "kw": ch if form == "kw" else D([])}
+            "cd": as_subclass(rng, ch) if form == "dict" else None, "kw": ch if form == "kw" else D([])}
     return {"op": "replace.e2e", "case": case}
 
 
@@ -517,7 +526,7 @@ def render_sel(rng, sels, form=None):
         kids = [(p_[1:], v) for p_, v in sels if len(p_) >= 2 and p_[0] == h]
         if not kids:
             # a lone selection may also be written in the nested form {"h": {"__key__": v}}
-            items.append((h, D([(KW, own[0])])) if (form is None and rng.random() < 0.3) else (h, own[0]))
+            items.append((h, as_subclass(rng, D([(KW, own[0])]))) if (form is None and rng.random() < 0.3) else (h, own[0]))
             continue
         f = form or rng.choice(["flat", "nested"])
         if f == "flat":
@@ -529,7 +538,7 @@ def render_sel(rng, sels, form=None):
             sub = ditems(render_sel(rng, kids, form))
             if own:
                 sub.insert(rng.randrange(len(sub) + 1), (KW, own[0]))
-            items.append((h, D(sub)))
+            items.append((h, as_subclass(rng, D(sub))))
     rng.shuffle(items)
     return D(items)
 
@@ -553,7 +562,7 @@ def gen_subgroups_case(rng, tier):
     items = ditems(render_sel(rng, [(s_["path"], s_["v"]) for s_ in sels]))
     if not valid and rng.random() < 0.3:
         items.insert(rng.randrange(len(items) + 1), ("zz_unknown", S("a")))
-    sel = None if (not items and rng.random() < 0.5) else D(items)
+    sel = None if (not items and rng.random() < 0.5) else as_subclass(rng, D(items))
     return {"op": "replace.subgroups", "case": {"classes": classes, "obj": obj, "sel": sel, "sels": sels, "valid": valid}}
 
 
@@ -667,7 +676,16 @@ def build_value(v, real):
     if t == "list":
         return [build_value(x, real) for x in v["v"]]
     if t == "dict":
-        return {build_value(k, real): build_value(x, real) for k, x in v["v"]}
+        d = {build_value(k, real): build_value(x, real) for k, x in v["v"]}
+        if v.get("sub") == "ordered":
+            import collections
+
+            return collections.OrderedDict(d)
+        if v.get("sub") == "default":
+            import collections
+
+            return collections.defaultdict(dict, d)
+        return d
     if t == "type":
         return real[v["cls"]]
     if t == "inst":
@@ -1129,6 +1147,16 @@ def reset_noninit_deep(v, classes):
     return {"t": "inst", "cls": r["cls"], "v": [[n, reset_noninit_deep(x, classes)] for n, x in r["v"]]}
 
 
+def _subkinds(v):
+    out = set()
+    if isinstance(v, dict) and v.get("t") == "dict":
+        if v.get("sub"):
+            out.add(v["sub"])
+        for _, x in ditems(v):
+            out |= _subkinds(x)
+    return out
+
+
 def depth_of(v):
     if v.get("t") != "inst":
         return 0
@@ -1167,6 +1195,8 @@ def tags(case, obs):
             t.append("has:dotted")
         if any(v.get("t") == "dict" for _, v in ditems(ch)):
             t.append("has:nested")
+        for kind in _subkinds(ch):
+            t.append("mapping:" + kind)
     elif op == "replace.subgroups":
         o = obs["out"]
         t.append("out:" + (o["o"] if o["o"] == "ok" else o["exc"]))
@@ -1183,6 +1213,8 @@ def tags(case, obs):
             t.append("sel-form:" + ("nested" if any(x.get("t") == "dict" for _, x in ditems(c["sel"])) else "flat"))
             if _has_nested_key(c["sel"]):
                 t.append("sel-form:nested-with-key")
+            for kind in _subkinds(c["sel"]):
+                t.append("mapping:" + kind)
         keys = [k for k, _ in ditems(c["sel"])] if c["sel"] else []
         for i_, k in enumerate(keys):
             if any(k2.startswith(k + ".") for k2 in keys[:i_]):
